@@ -808,6 +808,15 @@ func ParseSpecFile(path, src, pkgPath string) (*SpecFile, error) {
 				for _, n := range ns {
 					curF.LoopInv[n] = append(curF.LoopInv[n], cl)
 				}
+			case "exitassert":
+				cl, err := parseClause(c, f[2])
+				if err != nil {
+					return nil, err
+				}
+				cl.Where = "exitassert"
+				for _, n := range ns {
+					curF.LoopUse[n] = append(curF.LoopUse[n], cl)
+				}
 			case "head", "back", "init", "exit":
 				rest := strings.TrimSpace(f[2])
 				rest = strings.TrimSpace(strings.TrimPrefix(rest, "use"))
